@@ -717,6 +717,11 @@ def r17(ctx, rep):
     rep.borrowed(C03.r1_r2, ctx, "C07.R18", "DISTINCT and aggregation reset the inherited order", only=r"^(reset|retain):")
 
 
+def r19(ctx, rep):
+    import C04
+    rep.borrowed(C04.r9, ctx, "C07.R19", "a RANGE frame with offsets needs an ORDER BY to be valid SQL")
+
+
 def run(ctx, rep):
-    for r in (r1, r2, r3, r4, r5, r6, r7, r8, r9, r10, r11, r12, r13, r14, r15, r16, r17):
+    for r in (r1, r2, r3, r4, r5, r6, r7, r8, r9, r10, r11, r12, r13, r14, r15, r16, r17, r19):
         rep.guard(r, ctx)
